@@ -99,7 +99,7 @@ Arguments as_farr : simpl never.
 
 Theorem inv_step h o : Inv h -> Inv (fst (step current h o)).
 Proof.
-  intros H. destruct o; simpl;
+  intros H. destruct o; simpl; try exact H;
     try (apply inv_add_result; assumption);
     try (destruct (nth_error (arrs h) i) as [a|] eqn:Ea; simpl; [|assumption];
          pose proof (nth_error_inv h i a H Ea) as Ha).
@@ -163,7 +163,7 @@ Qed.
 
 Theorem raise_frame h o : snd (step current h o) = Raised -> fst (step current h o) = h.
 Proof.
-  destruct o; simpl;
+  destruct o; simpl; try (intros _; reflexivity);
     try (apply add_result_raise);
     try (destruct (nth_error (arrs h) i) as [a|] eqn:Ea; simpl; [|reflexivity]);
     try (apply add_result_raise).
@@ -203,7 +203,7 @@ Qed.
 
 Definition in_place (o : hop) : bool :=
   match o with
-  | HSet _ _ _ | HSetValues _ _ | HRawFill _ _ => true
+  | HSet _ _ _ | HSetValues _ _ | HSetValuesArr _ _ | HRawFill _ _ => true
   | HCumsum _ _ ip => ip
   | _ => false
   end.
